@@ -297,7 +297,7 @@ def t_autostate(g, movable):
 def t_movable_fwd(g):
     """explicitly movable registers (allowRetimingForward) pulled to a pipestage; optional partial enables (holding circuit)"""
     r = g.r
-    mode = r.choice(["plain", "plain", "stall", "partial", "api", "group+movable"])
+    mode = r.choice(["plain", "plain", "stall", "partial", "api", "group+movable", "mixed", "mixed"])
     resets = r.random() < 0.7
     expect = "ok"
     second = False
@@ -314,6 +314,32 @@ def t_movable_fwd(g):
             pool.append(g.reg(p, "regfwd", rst=resets))
             g.emit("endenif")
         g.feat.add("partial-enable-holding-circuit")
+    elif mode == "mixed":
+        # fan-in mixing register sources WITH an enable (movable register / balance group inside ENIF)
+        # and WITHOUT one (free running): the retimed register must not inherit the enable
+        nin = r.choice([2, 2, 3])
+        pins = [g.pin(0) for _ in range(nin)]
+        e = g.pin(0)
+        inside = [True, False] + [r.random() < 0.5 for _ in range(nin - 2)]
+        r.shuffle(inside)
+        usegroup = r.random() < 0.35
+        for k, (p, ins) in enumerate(zip(pins, inside)):
+            if ins:
+                g.emit(f"enif {e}")
+            if usegroup and k == 0:
+                gname = g.fresh("G")
+                g.emit(f"pipegroup {gname}")
+                n = g.fresh("g")
+                lit = g.rstlit(p) if resets else None
+                g.emit(f"pipein {n} {gname} {p}" + (f" rst {lit}" if lit else ""))
+                g.rstof[n] = lit
+                pool.append(g.define(n, g.typ[p]))
+                g.feat.add("group")
+            else:
+                pool.append(g.reg(p, "regfwd", rst=resets))
+            if ins:
+                g.emit("endenif")
+        g.feat.add("mixed-enable-fan-in")
     elif mode == "group+movable":
         en, gouts = _group_inputs(g, r.random() < 0.4, resets, nin=2, widths=[0, 0])
         second = r.random() < 0.45
